@@ -18,6 +18,8 @@ func main() {
 		var lwg sync.WaitGroup
 		lwg.Add(1)
 		go func() { defer lwg.Done(); lapseWhileLocked(r) }()
+		lwg.Add(1)
+		go func() { defer lwg.Done(); lateForwardReply(r) }()
 		closeDuringRoundTrip(r)
 		defer lwg.Wait()
 		n := r.Pick(500, 10000)
